@@ -27,9 +27,13 @@ func C09_Middleware() {
 	w := world.New()
 	expireAfter := time.Duration(verif.Int("ExpireAfter", 1, maxDur))
 	w.AB.Config.Modules.ExpireAfter = expireAfter
-	whiteW := verif.Choice("whitelist", 2) == 1
-	if whiteW {
+	wl := verif.Choice("whitelist", 3)
+	whiteW := wl >= 1
+	if wl == 1 {
 		w.AB.Config.Storage.SessionStateWhitelistKeys = []string{"app_w"}
+	} else if wl == 2 {
+		// application keys that embed the names of library keys must not un-hide those
+		w.AB.Config.Storage.SessionStateWhitelistKeys = []string{"app_w", "device_uid", "seen_twofactor_prompt", "not_halfauth_banner", "app_x2"}
 	}
 	// arbitrary session: every key either absent or holding an arbitrary value
 	keys := []string{authboss.SessionKey, authboss.SessionHalfAuthKey, authboss.Session2FA, "app_w", "app_x"}
